@@ -1,7 +1,11 @@
 use crate::engine::Prop;
 
 pub mod c01;
+pub mod c02;
+pub mod c03;
 pub mod c04;
+pub mod c05;
+pub mod c06;
 pub mod c08;
 pub mod c13;
 pub mod c14;
@@ -9,7 +13,10 @@ pub mod c15;
 pub mod wf;
 
 pub fn all() -> Vec<&'static dyn Prop> {
-    vec![&c01::C01, &c04::C04, &c08::C08, &c13::C13, &c14::C14, &c15::C15]
+    vec![
+        &c01::C01, &c02::C02, &c03::C03, &c04::C04, &c05::C05, &c06::C06, &c08::C08, &c13::C13,
+        &c14::C14, &c15::C15,
+    ]
 }
 
 pub fn by_id(id: &str) -> Option<&'static dyn Prop> {
